@@ -518,6 +518,10 @@ enum Style {
     PingPong { rounds: Vec<(usize, usize)> },
     /// A zlink sender whose sends are abandoned at pending polls; the peer is a raw descriptor.
     CancelRaw { ops: Vec<SendOp>, plan: CancelPlan },
+    /// End B first sends a few small messages that end A never reads; A then sends `a2b` and goes
+    /// away at once (both halves dropped, unread data in its queue: the kernel resets the
+    /// connection). B must still receive every message A sent before it sees the failure.
+    SendThenVanish { a2b: Vec<SendOp>, junk: Vec<usize> },
 }
 
 #[derive(Clone, Debug)]
@@ -615,6 +619,10 @@ fn gen_plan(t: &mut Tape, thorough: bool) -> Plan {
                 };
                 Style::CancelRaw { ops: gen_ops_b(t, n_max, class, sb, &mut budget, max_len, false), plan }
             }
+            (4, _) => Style::SendThenVanish {
+                a2b: gen_ops_b(t, n_max, class, sb, &mut budget, max_len, false),
+                junk: (0..1 + t.draw(3)).map(|_| t.draw(200)).collect(),
+            },
             (3, _) => {
                 let r = 1 + t.draw(4);
                 Style::PingPong {
@@ -660,6 +668,7 @@ fn describe_plan(p: &Plan, rt: &str) -> Value {
                 Style::Duplex { a2b, b2a, close_first, recv_cancel } => json!({"duplex": {"a_to_b": describe_ops(a2b), "b_to_a": describe_ops(b2a), "closes_first": if *close_first == 0 { "a" } else { "b" }, "receivers_abandon_pending_receives": format!("{recv_cancel:?}")}}),
                 Style::PingPong { rounds } => json!({"ping_pong_call_reply_pads": rounds}),
                 Style::CancelRaw { ops, plan } => json!({"abandoned_sends_vs_raw_peer": {"ops": describe_ops(ops), "cancel": format!("{plan:?}")}}),
+                Style::SendThenVanish { a2b, junk } => json!({"sender_vanishes_with_unread_data": {"a_to_b": describe_ops(a2b), "unread_b_to_a_pads": junk}}),
             }
         })).collect::<Vec<_>>()
     })
@@ -908,6 +917,94 @@ fn spawn_conn<B: Backend>(world: &World, sh: &Rc<Shared<B::Sock>>, k: usize, cp:
                     }
                 }))),
             });
+        }
+        Style::SendThenVanish { a2b, junk } => {
+            let b = b.unwrap();
+            let (ar, mut aw) = a.split();
+            let (br, mut bw) = b.split();
+            let junk_sent = Rc::new(std::cell::Cell::new(false));
+            let a_gone = Rc::new(std::cell::Cell::new(false));
+            {
+                let (world, sh, junk, junk_sent, a_gone) = (world.clone(), sh.clone(), junk.clone(), junk_sent.clone(), a_gone.clone());
+                acts.push(Act {
+                    class: 1,
+                    tag: (k as u64) * 8 + 1,
+                    kind: Some(ActKind::Fut(Box::pin(async move {
+                        for (seq, l) in junk.iter().enumerate() {
+                            if let Err(e) = bw.send_call(&mk_call(conn, 1, seq as u32, *l)).await {
+                                sh.fail("C19/send-error", format!("connection {conn}: small message {seq} towards the end that never reads failed: {e:?}"));
+                                return;
+                            }
+                        }
+                        world.borrow_mut().ev("b.junk_sent", conn as u64, junk.len() as u64);
+                        junk_sent.set(true);
+                        // keep this half open until the other end is gone
+                        std::future::poll_fn(|_| if a_gone.get() { Poll::Ready(()) } else { Poll::Pending }).await;
+                        drop(bw);
+                    }))),
+                });
+            }
+            {
+                let (world, sh, ops, junk_sent, a_gone) = (world.clone(), sh.clone(), a2b.clone(), junk_sent.clone(), a_gone.clone());
+                acts.push(Act {
+                    class: 1,
+                    tag: (k as u64) * 8,
+                    kind: Some(ActKind::Fut(Box::pin(async move {
+                        std::future::poll_fn(|_| if junk_sent.get() { Poll::Ready(()) } else { Poll::Pending }).await;
+                        let recs = RefCell::new(Vec::new());
+                        let fl = RefCell::new(None);
+                        run_sender(&world, &mut aw, conn, 0, &ops, CancelPlan::Never, &recs, &fl).await;
+                        if let Some((c, m)) = fl.into_inner() {
+                            sh.fail(&c, format!("connection {conn} direction 0: {m}"));
+                        }
+                        // everything was handed to the kernel; now vanish with B's messages unread
+                        drop(aw);
+                        drop(ar);
+                        world.borrow_mut().ev("b.sender_vanished", conn as u64, 0);
+                        world.borrow_mut().stat("fault.peer_vanished_with_unread_data");
+                        a_gone.set(true);
+                    }))),
+                });
+            }
+            {
+                let (world, ops) = (world.clone(), a2b.clone());
+                let f = failer(sh);
+                let f2 = f.clone();
+                acts.push(Act {
+                    class: 2,
+                    tag: (k as u64) * 8 + 2,
+                    kind: Some(ActKind::Fut(Box::pin(async move {
+                        let lens = lens_of(&ops);
+                        let n = lens.len();
+                        let mut rc = br;
+                        // every message first ...
+                        let mut pending_polls = 0u64;
+                        for (seq, len) in lens.iter().enumerate() {
+                            match abandonable(&world, rc.receive_call::<Msg<'_>>(), &CancelPlan::Never, &mut pending_polls).await {
+                                Some(Ok(call)) => {
+                                    let Msg::Msg { conn: c, dir: d, seq: s, pad: p } = call.method();
+                                    let ok = *c == conn && *d == 0 && *s == seq as u32 && **p == *pad(*len, salt(conn, 0, seq as u32));
+                                    world.borrow_mut().ev("b.recv", (conn as u64) * 2, seq as u64);
+                                    if !ok {
+                                        f("C19/received-sequence-differs", format!("connection {conn}: message {seq} (pad {len}) from the end that vanished arrived altered"));
+                                        return;
+                                    }
+                                }
+                                Some(Err(e)) => {
+                                    f("C19/receive-error", format!("connection {conn}: the peer sent {n} complete messages and then vanished with unread data in its own queue; receiving message {seq} failed with {e:?} although the kernel delivers everything that was sent before it reports the reset"));
+                                    return;
+                                }
+                                None => unreachable!(),
+                            }
+                        }
+                        // ... then the failure (end-of-stream or a transport error, both are fine)
+                        match rc.receive_call::<Msg<'_>>().await {
+                            Err(_) => world.borrow_mut().stat("probe.failure_reported_only_after_all_messages_of_a_vanished_peer"),
+                            Ok(c) => f2("C19/received-sequence-differs", format!("connection {conn}: a message nobody sent arrived after the peer vanished: {:?}", format!("{c:?}").chars().take(80).collect::<String>())),
+                        }
+                    }))),
+                });
+            }
         }
         Style::CancelRaw { ops, plan } => {
             let raw = raw.unwrap();
@@ -1205,6 +1302,7 @@ fn run_tier_b(world: &World, smol: bool, thorough: bool) -> Verdict {
                 }
                 Style::PingPong { rounds } => rounds.iter().flat_map(|r| [r.0, r.1]).collect(),
                 Style::CancelRaw { ops, .. } => lens_of(ops),
+                Style::SendThenVanish { a2b, junk } => lens_of(a2b).into_iter().chain(junk.iter().copied()).collect(),
             };
             let sb = c.sndbuf.unwrap_or(212_992);
             w.stat_add("frames.submitted", lens.len() as u64);
